@@ -99,18 +99,24 @@ def fracs(tier, seed):
     return list(range(1, 129))
 
 
-def run(prop, tier, seed, workdir, log):
+def run(prop, tier, seed, workdir, log, families=("mul128", "widen")):
     """returns dict(results=[...], violations=[replay paths], inconclusive=[(name, why)], functions=[...], solver_s=float)"""
     res = {"results": [], "violations": [], "inconclusive": [], "functions": [], "solver_s": 0.0, "queries": 0, "samples": []}
     try:
         path, dt = dump_mir(workdir)
         log("engine M: MIR dumped in %.0fs (%d bytes)" % (dt, os.path.getsize(path)))
-        funcs = mir.parse(open(path).read(), want=lambda n: n.startswith("arith::"))
+        text = open(path).read()
+        funcs = mir.parse(text, want=lambda n: n.startswith("arith::"))
     except Exception as e:  # noqa: BLE001
         res["inconclusive"].append(("engineM", "MIR dump/parse failed: %s" % str(e)[:300]))
         return res
     called = set()
-    for ty in ("u128", "i128"):
+    if "tofixed" in families:
+        try:
+            run_tofixed(prop, tier, seed, workdir, log, mir.parse(text, want=lambda n: n.startswith("int_helper::")), res, called)
+        except Exception as e:  # noqa: BLE001
+            res["inconclusive"].append(("engineM_tofixed", "failed: %s" % str(e)[:300]))
+    for ty in (("u128", "i128") if "mul128" in families else ()):
         cands = []   # (f, a, b, origin)
         state = {"reproduced": False, "replayed": 0}
 
@@ -229,7 +235,7 @@ def run(prop, tier, seed, workdir, log):
             res["inconclusive"].append(("m_mul_%s" % ty, "concrete MIR execution disagreed with the specification but did not reproduce natively"))
     # ---------------- widening kernels (u8..u64, i8..i64): every fractional-bit count, all operands
     from vm import widen
-    for ty in ("u8", "i8", "u16", "i16", "u32", "i32", "u64", "i64", "u128", "i128"):
+    for ty in (("u8", "i8", "u16", "i16", "u32", "i32", "u64", "i64", "u128", "i128") if "widen" in families else ()):
         w = mir.INT_TYPES[ty][1]
         state = {"reproduced": {}, "replayed": 0}
 
@@ -330,9 +336,212 @@ def run(prop, tier, seed, workdir, log):
     return res
 
 
+CONV_SRC = """
+#[test]
+fn replay() {
+    use substrate_fixed::{types::extra::{U%d, U%d}, traits::Fixed, %s, %s};
+    type S = %s<U%d>;
+    type D = %s<U%d>;
+    let x = S::from_bits(%s);
+    let (v, o): (D, bool) = x.overflowing_to_num::<D>();
+    assert_eq!((v.to_bits(), o), (%s, %s), "overflowing_to_num is floor(v * 2^dst_frac) mod 2^W with the exact flag");
+    let y = D::from_bits(%s);
+    // comparison through the same kernel: x ? y must order the exact values
+    assert_eq!(x.partial_cmp(&y), Some(%s), "partial_cmp orders the exact values");
+    assert_eq!(y.partial_cmp(&x), Some(%s), "partial_cmp (reversed) orders the exact values");
+}
+"""
+
+
+def conv_replay(workdir, ty, v, sf, dty, df):
+    """conversion S -> D and comparison S ? D natively, both profiles, against exact arithmetic"""
+    from fractions import Fraction
+    ss, sw = mir.INT_TYPES[ty]
+    ds, dw = mir.INT_TYPES[dty]
+    n = sf - df
+    e = (v << (-n)) if n <= 0 else (v >> n)
+    lo, hi = mir.ty_range(dty)
+    ovf = not (lo <= e <= hi)
+    wv = e & ((1 << dw) - 1)
+    if ds and wv >> (dw - 1):
+        wv -= 1 << dw
+    # a comparison partner: the destination value nearest below the source value (or its minimum)
+    yb = min(max(e, lo), hi)
+    xs, ys = Fraction(v, 1 << sf), Fraction(yb, 1 << df)
+    order = "core::cmp::Ordering::Less" if xs < ys else ("core::cmp::Ordering::Greater" if xs > ys else "core::cmp::Ordering::Equal")
+    rorder = {"core::cmp::Ordering::Less": "core::cmp::Ordering::Greater", "core::cmp::Ordering::Greater": "core::cmp::Ordering::Less"}.get(order, order)
+    d = os.path.join(workdir, "mreplay")
+    os.makedirs(os.path.join(d, "src"), exist_ok=True)
+    open(os.path.join(d, "Cargo.toml"), "w").write(REPLAY_TOML % core.REPO)
+    lock = os.path.join(core.REPO, "Cargo.lock")
+    if os.path.exists(lock):
+        shutil.copy(lock, os.path.join(d, "Cargo.lock"))
+
+    def lit(x, t):
+        s_, w_ = mir.INT_TYPES[t]
+        if s_ and x == -(1 << (w_ - 1)):
+            return "%s::MIN" % t
+        return ("%d%s" % (x, t)) if x >= 0 else ("(%d%s)" % (x, t))
+    fs = "Fixed%s%d" % ("I" if ss else "U", sw)
+    fd = "Fixed%s%d" % ("I" if ds else "U", dw)
+    open(os.path.join(d, "src", "lib.rs"), "w").write(CONV_SRC % (sf, df, fs, fd, fs, sf, fd, df, lit(v, ty), lit(wv, dty), "true" if ovf else "false",
+                                                                  lit(yb, dty), order, rorder))
+    out = {}
+    for prof in ("dev", "release"):
+        env = core.playback_env(prof == "release")
+        env.pop("RUSTFLAGS", None)
+        env["CARGO_TARGET_DIR"] = os.path.join(workdir, "mreplay_target_" + prof)
+        p = subprocess.run(["cargo", "test", "--offline", "--lib"], cwd=d, env=env, capture_output=True, text=True, timeout=900)
+        so = p.stdout + p.stderr
+        m = re.search(r"test result: (\w+)\. (\d+) passed; (\d+) failed", so)
+        if not m:
+            out[prof] = (None, so[-600:])
+        else:
+            msg = re.search(r"panicked at ([^\n]*)\n([^\n]*)", so)
+            out[prof] = (int(m.group(3)) > 0, (msg.group(1) + " " + msg.group(2)) if msg else "")
+    return out
+
+
+def tofixed_layouts(ty, tier, seed):
+    """(src_frac, dst_frac, dst_int) triples: the kernel depends on them only through src_frac - dst_frac and dst_frac + dst_int"""
+    w = mir.INT_TYPES[ty][1]
+    rnd = random.Random(seed * 31 + w + (7 if ty[0] == "i" else 0))
+    out = set()
+    for db in (8, 16, 32, 64, 128):
+        if tier == "thorough":
+            for n in range(-db, w + 1):          # every reachable need_to_shr once (+ a second realisation)
+                for _ in range(2):
+                    sf = rnd.randrange(max(0, n), min(w, n + db) + 1)
+                    out.add((sf, sf - n, db - (sf - n)))
+        else:
+            for df in (0, db // 2, db):
+                for sf in (0, 1, w // 2, w - 1, w):
+                    out.add((sf, df, db - df))
+            for _ in range(3):
+                df = rnd.randrange(0, db + 1)
+                out.add((rnd.randrange(0, w + 1), df, db - df))
+    # source scales outside 0..W occur through the float path (src_frac = prec - 1 - exp): the catch-all arms of the match
+    for sf in (-1000, -200, -129, -128, -127, -1, w + 1, 127, 128, 129, 255, 256, 1100):
+        out.add((sf, 0, 32))
+        out.add((sf, 64, 64))
+    return sorted(out)
+
+
+def run_tofixed(prop, tier, seed, workdir, log, funcs, res, called):
+    from concurrent.futures import ThreadPoolExecutor
+    from vm import tofixed
+    types = ["u8", "i8", "u16", "i16", "u32", "i32", "u64", "i64", "u128", "i128"]
+    # translator validation
+    rnd = random.Random(seed + 5)
+    nval = nbad = 0
+    for ty in types:
+        lo, hi = mir.ty_range(ty)
+        w = mir.INT_TYPES[ty][1]
+        for _ in range(120):
+            v = rnd.choice([0, 1, hi, lo, lo + 1, -1 if lo < 0 else 2, rnd.randrange(lo, hi + 1), rnd.randrange(lo, hi + 1) >> rnd.randrange(0, w)])
+            sf = rnd.randrange(0, w + 1)
+            wd = rnd.choice([8, 16, 32, 64, 128])
+            df = rnd.randrange(0, wd + 1)
+            got, p = tofixed.concrete(funcs, ty, v, sf, df, wd - df)
+            nval += 1
+            if got != tofixed.spec_py(v, ty, sf, df, wd - df) or p:
+                nbad += 1
+    log("engine M: to_fixed_helper translator validation on %d concrete runs: %d mismatches" % (nval, nbad))
+    work = [(ty, lay) for ty in types for lay in tofixed_layouts(ty, tier, seed)]
+
+    def one(item):
+        ty, (sf, df, di) = item
+        name = "m_tofixed_%s_s%d_d%d_%d" % (ty, sf, df, di)
+        name = name.replace("-", "m")
+        try:
+            t0 = time.time()
+            ctx, qs, cl = tofixed.build(funcs, ty, sf, df, di)
+            # the bit-vector rendering is 400 bits wide: scales that shift further left need the integer rendering
+            use_bv = (df - sf) + mir.INT_TYPES[ty][1] < mir.WBV - 20
+            sc = (mulcheck.smt_script(ctx, qs, models=True, bv=True) if use_bv else None) or mulcheck.smt_script(ctx, qs, models=True)
+            out1, _ = mulcheck.run_solver(sc, "cvc5", 60000)
+            ans, mods = mulcheck.parse_answers(out1)
+            ans_z = []
+            if (sf, df) in ((0, 0), (mir.INT_TYPES[ty][1], 0)):
+                outz, _ = mulcheck.run_solver(sc, "/usr/bin/z3", 60000)
+                ans_z, _m = mulcheck.parse_answers(outz)
+            return name, ty, (sf, df, di), qs, ans, mods, ans_z, cl, time.time() - t0, None
+        except mir.Unsupported as e:
+            return name, ty, (sf, df, di), [], [], [], [], [], 0.0, "unsupported MIR construct: %s" % e
+        except subprocess.TimeoutExpired:
+            return name, ty, (sf, df, di), [], [], [], [], [], 0.0, "solver time-out"
+    cands = []
+    with ThreadPoolExecutor(max_workers=max(2, core.NCPU - 2)) as ex:
+        for (name, ty, lay, qs, ans, mods, ans_z, cl, dt, err) in ex.map(one, work):
+            called.update(cl)
+            res["solver_s"] += dt
+            res["queries"] += len(qs) * (2 if ans_z else 1)
+            verdict, why = "ok", ""
+            if err:
+                verdict, why = "inconclusive", err
+            elif len(ans) != len(qs):
+                verdict, why = "inconclusive", "solver output not understood"
+            elif ans_z and len(ans_z) == len(ans) and any(x in ("sat", "unsat") and y in ("sat", "unsat") and x != y for x, y in zip(ans, ans_z)):
+                verdict, why = "inconclusive", "cvc5 and z3 disagree: %s vs %s" % (ans, ans_z)
+            else:
+                for (q, a_, m_) in zip(qs, ans, mods):
+                    if a_ == "unsat":
+                        continue
+                    if a_ == "sat":
+                        verdict, why = "refuted", q[0]
+                        if m_:
+                            cands.append((ty, lay, m_[0], q[0]))
+                        break
+                    verdict, why = "inconclusive", "%s: %s" % (q[0], a_)
+                    break
+            res["results"].append({"name": name, "verdict": verdict, "why": why, "queries": len(qs), "solver_s": round(dt, 2)})
+            if verdict == "inconclusive":
+                res["inconclusive"].append((name, why))
+            if (verdict != "ok" and len(res["samples"]) < 8) or len(res["samples"]) < 2:
+                res["samples"].append({"obligation": name, "type": ty, "layout(src_frac,dst_frac,dst_int)": lay, "queries": [q[0] for q in qs][:8], "verdict": verdict, "answers": ans})
+    refuted = [r for r in res["results"] if r["verdict"] == "refuted" and r["name"].startswith("m_tofixed_")]
+    reproduced = False
+    tried = 0
+    for (ty, (sf, df, di), v, qname) in cands:
+        w = mir.INT_TYPES[ty][1]
+        if not (0 <= sf <= w) or tried >= 4:
+            continue
+        dw = df + di
+        for dty in (("u%d" % dw), ("i%d" % dw)):
+            tried += 1
+            out = conv_replay(workdir, ty, v, sf, dty, df)
+            rep = any(x[0] for x in out.values())
+            log("engine M: candidate to_fixed_helper %s v=%d src_frac=%d -> %s dst_frac=%d (%s): native %s" % (ty, v, sf, dty, df, qname[:50], {k: x[0] for k, x in out.items()}))
+            if rep:
+                reproduced = True
+                rdir = os.path.join(core.VERIF, "replays", prop)
+                os.makedirs(rdir, exist_ok=True)
+                rpath = os.path.join(rdir, "m_tofixed_%s_%d_%s_%d-%s.json" % (ty, sf, dty, df, core.sha(str(v))))
+                json.dump({"engine": "mir-smt", "op": "conv", "property": prop, "type": ty, "v": str(v), "src_frac": sf, "dst_type": dty, "dst_frac": df,
+                           "origin": "solver model for '%s'" % qname, "native": {k: {"reproduced": x[0], "message": x[1]} for k, x in out.items()}},
+                          open(rpath, "w"), indent=1)
+                res["violations"].append(os.path.relpath(rpath, core.VERIF))
+                break
+        if reproduced:
+            break
+    if refuted and not reproduced:
+        res["inconclusive"].append(("m_tofixed", "solver refuted %d obligation(s) (%s) but no conversion/comparison reproduced natively" % (len(refuted), refuted[0]["why"])))
+    log("engine M: to_fixed_helper %d obligations, %d refuted" % (len(work), len(refuted)))
+
+
 def replay(rp, log):
     ws = os.path.join(core.WORK, "mreplay-%d" % os.getpid())
     os.makedirs(ws, exist_ok=True)
+    if rp.get("op") == "conv":
+        try:
+            out = conv_replay(ws, rp["type"], int(rp["v"]), int(rp["src_frac"]), rp["dst_type"], int(rp["dst_frac"]))
+            rep = False
+            for prof, (failed, msg) in out.items():
+                log("replay profile=%s reproduced=%s %s" % (prof, failed, msg))
+                rep = rep or bool(failed)
+            return rep
+        finally:
+            shutil.rmtree(ws, ignore_errors=True)
     try:
         out, _want = native_replay(ws, rp["type"], int(rp["frac_nbits"]), int(rp["a"]), int(rp["b"]), rp.get("op", "mul"))
         rep = False
